@@ -713,6 +713,17 @@ func (c *c08GenCtx) negNID(nid int64) *c08Cand {
 	return cd
 }
 
+// c08ShortNDList: a BTP digest whose network digest list declares 5 bytes of payload but is cut
+// off by the enclosing list after one (malformed) element.
+func c08ShortNDList() []byte {
+	h32 := bytes.Repeat([]byte{0x11}, 32)
+	ntd := append([]byte{0x01, 0x83, 'e', 't', 'h', 0xa0}, h32...)
+	ntd = append(ntd, 0xc5, 0x01)
+	ntd = append([]byte{0xc0 + byte(len(ntd))}, ntd...)
+	ntds := append([]byte{0xc0 + byte(len(ntd))}, ntd...)
+	return append([]byte{0xc0 + byte(len(ntds))}, ntds...)
+}
+
 func c08Gen(g *Gen) {
 	c := &c08GenCtx{g: g, n: c08GetNode(g.Bytes(32)), seen: map[string]bool{}}
 	c.buildChain()
@@ -738,7 +749,7 @@ func c08Gen(g *Gen) {
 		[]byte("\xd0\x02000000\x80\x800000000\xe9\xc0\xc0000000000000000000000000000000000000000"),
 	}
 	for i := 0; i < g.N; i++ {
-		if i > 0 && i%400 == 0 {
+		if i > 0 && i%50 == 0 {
 			// new case: the tables are per case
 			g.Emit("reset")
 			c.seen = map[string]bool{}
@@ -801,9 +812,13 @@ func c08Gen(g *Gen) {
 				enc[g.Intn(2)] ^= byte(1 << uint(g.Intn(8)))
 			}
 			emit(enc, "")
-		case k < 84: // negative / huge network ids in the digest
+		case k < 84: // negative / huge network ids in the digest; a network digest list that ends early
 			nid := []int64{-1, -8, -1 << 63, 1<<63 - 1, 1 << 40, 255, 256, 0}[g.Intn(8)]
 			cd := c.negNID(nid)
+			if g.Intn(4) == 0 {
+				cd.b.BTPDigest = c08ShortNDList()
+				cd.h.Result = c08List(c08Str(nil), c08Str(nil), c08Str(nil), c08Str(nil), c08Int(1), c08Str(crypto.SHA3Sum256(cd.b.BTPDigest)))
+			}
 			c.register(cd)
 			emit(cd.encode(), "")
 		case k < 92: // random bytes
